@@ -360,8 +360,16 @@ class Discharger:
                     return ("COMP-SOME", "`comp` is Some: it is set to None only by take() in into_inner, which consumes self")
             # CONST-UUID
             m = re.search(r"parse_str\([&*]*s:'([^']*)'\)$", a)
-            if m and re.fullmatch(r"[0-9A-Fa-f]{8}-[0-9A-Fa-f]{4}-[0-9A-Fa-f]{4}-[0-9A-Fa-f]{4}-[0-9A-Fa-f]{12}", m.group(1)):
+            UU = r"[0-9A-Fa-f]{8}-[0-9A-Fa-f]{4}-[0-9A-Fa-f]{4}-[0-9A-Fa-f]{4}-[0-9A-Fa-f]{12}"
+            if m and re.fullmatch(UU, m.group(1)):
                 return ("CONST-UUID", "argument is the well-formed UUID literal %s" % m.group(1))
+            m = re.search(r"parse_str\([&*]*(_\d+)\)$", a)
+            if m:
+                # the text is chosen by a match: every definition of that local is a well-formed UUID literal
+                ds = S.du.origins({"l": int(m.group(1)[1:]), "p": []})
+                lits = [o[1].get("str") for o in ds if o[0] == "const"]
+                if ds and len(lits) == len(ds) and all(x is not None and re.fullmatch(UU, x) for x in lits):
+                    return ("CONST-UUID", "argument is one of the well-formed UUID literals %s" % sorted(lits))
             return None
         return None
 
@@ -422,6 +430,13 @@ class Discharger:
             if x is None or y is None:
                 continue
             lo, hi, ex = interval_of(facts, var)
+            if lo is None and hi is None:
+                continue
+            # an unsigned operand type bounds the variable on the side the tests leave open (only when the variable itself has that type: no cast in between)
+            vty = fn.locals[int(var[1:])] if re.fullmatch(r"p\d+|_\d+", var) and int(var[1:]) < len(fn.locals) else None
+            if vty in UNSIGNED_MAX:
+                lo = 0 if lo is None else lo
+                hi = UNSIGNED_MAX[vty] if hi is None else hi
             if lo is None or hi is None:
                 continue
             k = (x[0] + y[0], x[1] + y[1]) if what == "add" else (x[0] - y[0], x[1] - y[1])
